@@ -6,6 +6,8 @@ use crate::scalar::X;
 use cgmath::*;
 
 pub mod extra;
+pub mod extra2;
+pub mod extra3;
 pub mod mat;
 pub mod oracle;
 pub mod point;
@@ -236,6 +238,8 @@ pub fn lookup(name: &str) -> Option<OpFn> {
         .or_else(|| quat::lookup(name))
         .or_else(|| xform::lookup(name))
         .or_else(|| extra::lookup(name))
+        .or_else(|| extra2::lookup(name))
+        .or_else(|| extra3::lookup(name))
         .or_else(|| oracle::lookup(name))
 }
 pub fn all_names() -> Vec<String> {
@@ -246,6 +250,8 @@ pub fn all_names() -> Vec<String> {
     v.extend(quat::NAMES.iter().map(|s| s.to_string()));
     v.extend(xform::names());
     v.extend(extra::names());
+    v.extend(extra2::names());
+    v.extend(extra3::names());
     v.extend(oracle::names());
     v
 }
